@@ -257,8 +257,11 @@ pub fn run() -> Vec<String> {
                         let g = got.val(j);
                         // quantised values whose pre-rounding quotient is a float-precision tie
                         // (the documentation computes in f32): +-1 as in the oracle
-                        let slack = matches!(&outs[k].tol, crate::refops::TolKind::IntSlack(s) if s[j]);
-                        if slack && (g - w).abs() <= 1.0 {
+                        let slack = match &outs[k].tol {
+                            crate::refops::TolKind::IntSlack(s) => s[j] as f64,
+                            _ => 0.0,
+                        };
+                        if slack > 0.0 && (g - w).abs() <= slack {
                             continue;
                         }
                         if (g - w).abs() > 1e-4 * (1.0 + w.abs()) {
